@@ -147,6 +147,8 @@ def run(ctx):
     macro_parsers_skip_only_tested_tokens(ctx, "R01-p")
     stream_parsers_reach_end_of_input(ctx, "R01-q", tab)
     sibling_switches_separate_the_same_variants(ctx, "R01-r", tab)
+    import c10
+    c10.visibility_tables(ctx, "R01-s")      # shared with C10: a visibility that compares equal to a different one is rewritten into it
     C = r.rule("R01-c", "no defaulted sub-rewrite: a RewriteResult / Option<String> returned by a Rewrite method is never turned into "
                         "an empty string (unwrap_or_default, unwrap_or(String::new()), unwrap_or_else(|_| String::new()))")
     latent = {e["fn"]: e["reason"] for e in tab.get("defaulted", [])}
@@ -353,7 +355,17 @@ def special_macro_parsers_check_tokens(ctx, rid):
     if f is None:
         r.undecidable(rid, "parse_lazy_static not found")
         return
-    eats = [c for c in f.calls() if c.name.startswith("rustc_parse::parser::Parser") and c.name.rsplit("::", 1)[-1] in ("eat", "eat_keyword", "eat_keyword_noexpect", "check", "check_keyword")]
+    EAT = ("eat", "eat_keyword", "eat_keyword_noexpect", "check", "check_keyword")
+    eats = [c for c in f.calls() if c.name.startswith("rustc_parse::parser::Parser") and c.name.rsplit("::", 1)[-1] in EAT]
+    if not eats:
+        # the per-item part may have been moved into a helper that is handed the parser
+        for c in f.calls():
+            h = p.fns.get(c.resolved or "")
+            if h is not None and h.crate == f.crate and any("parser::Parser" in t for t in h.locals[1:h.argc + 1]) and any(
+                    d.name.startswith("rustc_parse::parser::Parser") and d.name.rsplit("::", 1)[-1] in EAT for d in h.calls()):
+                f = h
+                eats = [d for d in f.calls() if d.name.startswith("rustc_parse::parser::Parser") and d.name.rsplit("::", 1)[-1] in EAT]
+                break
     dom = f.dominators()
     unused = [c for c in eats if not bool_branches(f, c.dest[0])]
     last = [c for c in eats if all(o.bb in dom.get(c.bb, ()) for o in eats)]
@@ -798,7 +810,17 @@ def token_strings_are_consumed(ctx, rid):
             if len(ds) < 2 or not all(k == "assign" for bb, k, st in ds):
                 continue
             for bb, st in discrs:
-                if all(db != bb and blocks_dominate(f, {bb}, db) for db, k, s2 in ds):
+                # the definitions sit in different arms of the match on the token-bearing value
+                sws = [sb for sb in range(len(f.blocks)) if f.term(sb)[0] == "switch" and f.term(sb)[1][0] != "k"
+                       and f.term(sb)[1][1][0] == st[1][0] and not f.term(sb)[1][1][1]]
+                if not sws:
+                    continue
+                tg = [x[1] for x in f.term(sws[0])[2]] + [f.term(sws[0])[3]]
+                arms = []
+                for db, k, s2 in ds:
+                    own = [t for t in tg if t is not None and blocks_dominate(f, {t}, db)]
+                    arms.append(own[0] if len(own) == 1 else None)
+                if None not in arms and len(set(arms)) >= 2:
                     out[l] = (bb, "match on %s" % _token_type(str(st[2][2])), _place_sig((st[2][1][0], st[2][1][1])))
                     break
         return out
@@ -1006,6 +1028,22 @@ def stream_parsers_reach_end_of_input(ctx, rid, tab):
                 if any(str(x[2]) in ("token", "kind") for x in d["fields"]) or any(
                         isinstance(e, list) and e[0] == "f" and str(e[4]) in ("token", "kind") for e in t[1][1][1]):
                     tests.add(bb)
+        # a helper that takes the parser and answers with (something derived from) a look at parser.token is such a test too
+        for c in f.calls():
+            h = p.fns.get(c.resolved or "")
+            if h is None or h.crate != f.crate or h.locals[0] != "bool" or c.dest[1]:
+                continue
+            looks = any(str(x[2]) in ("token", "kind") for x in h.derived_from(0)["fields"])
+            for hb in range(len(h.blocks)):
+                ht = h.term(hb)
+                if not looks and ht[0] == "switch" and ht[1][0] != "k":
+                    hd = h.derived_from(ht[1][1][0])
+                    looks = any(str(x[2]) in ("token", "kind") for x in hd["fields"]) or any(
+                        isinstance(e, list) and e[0] == "f" and str(e[4]) in ("token", "kind") for e in ht[1][1][1])
+            if looks:
+                from common import bool_branches
+                for sw, tt, ff in bool_branches(f, c.dest[0]):
+                    tests.add(sw)
         cons = [c for c in f.calls() if c.name.rsplit("::", 1)[-1].startswith("parse_") or c.name.rsplit("::", 1)[-1] == "check_keyword"]
         errb = {d.bb for d in f.calls() if (d.declared or "") == "std::ops::FromResidual::from_residual"} | {
             bb for bb, i, st in f.stmts() if st[0] == "=" and st[1][0] == 0 and st[2][0] == "agg" and isinstance(st[2][1], list)
